@@ -366,6 +366,52 @@ pub fn c05_run(opts: &crate::Opts, out: &mut Out) {
             out.case(format!("systematic mutation of {}", key));
         }
     }
+    // alterations of one triple at each position class of a batch larger than the internal chunk limit
+    if GROUP == "freemodule" {
+        let k = 257usize;
+        let members: Vec<(Inst, Stmt, Proof)> = (0..k)
+            .map(|i| {
+                let inst = random_inst(2, 1, 1, 1, 4 + i, false, &mut rng);
+                let st = inst.statement();
+                let p = inst.prove(&mut rng).unwrap();
+                (inst, st, p)
+            })
+            .collect();
+        let stmts: Vec<Stmt> = members.iter().map(|m| m.1.clone()).collect();
+        let proofs: Vec<Proof> = members.iter().map(|m| m.2.clone()).collect();
+        let mut ts: Vec<Transcript> = members.iter().map(|m| m.0.transcript()).collect();
+        out.oracle("C05:base-accepted", verify_caught(&mut ts, &stmts, &proofs, VerifyAction::VerifyOnly) == Ok(true), "batch of 257", "honest batch not accepted");
+        for pos in [0usize, 255, 256] {
+            for what in ["s1", "commitment", "promise", "context"] {
+                let mut st2 = stmts.clone();
+                let mut pr2 = proofs.clone();
+                let mut ts: Vec<Transcript> = members.iter().map(|m| m.0.transcript()).collect();
+                match what {
+                    "s1" => {
+                        let mut b = proofs[pos].to_bytes();
+                        b[1 + 32 * (1 + 4)] ^= 1;
+                        if let Ok(p) = Proof::from_bytes(&b) {
+                            pr2[pos] = p;
+                        }
+                    },
+                    "commitment" => {
+                        st2[pos] = stmt_variant(&stmts[pos], |s| {
+                            s.commitments[0] = other_point(7000 + pos as u64);
+                            s.commitments_compressed[0] = s.commitments[0].compress();
+                        })
+                    },
+                    "promise" => st2[pos] = stmt_variant(&stmts[pos], |s| s.minimum_value_promises[0] = Some(s.minimum_value_promises[0].unwrap_or(0) ^ 1)),
+                    _ => ts[pos] = Transcript::new(b"other"),
+                }
+                nmut += 1;
+                classes.insert((2, 257, pos, what.to_string()));
+                match verify_caught(&mut ts, &st2, &pr2, VerifyAction::VerifyOnly) {
+                    Err(()) => out.oracle("C05:no-panic", false, "batch of 257", "verify_batch panicked"),
+                    Ok(ok) => out.oracle("C05:altered-triple-rejected", !ok, &format!("batch of 257, altered {} of the triple at position {}", what, pos), "a batch with one altered triple was accepted"),
+                }
+            }
+        }
+    }
     out.stat(&format!("mutations_{}", GROUP), nmut);
     out.stat("distinct_classes", classes.len());
 }
@@ -551,6 +597,49 @@ pub fn c16_run(opts: &crate::Opts, out: &mut Out) {
                     out.oracle("C16:mixed-batch-verdict", ok == (!tamper || action == VerifyAction::RecoverOnly), &key, &format!("verdict {}", ok));
                 }
                 classes.insert((order.len(), order[0], 0, tamper as usize, 98, action_name(action)));
+            }
+        }
+    }
+    // (6) a proof whose extension-degree tag / d1 length disagrees with the statements, at every position of a batch of
+    // seeded statements, in every mode: an error value, never a panic (the recovery loop indexes d1)
+    for t in [2usize, 3] {
+        let members: Vec<(Inst, Stmt, Proof)> = (0..3)
+            .map(|i| {
+                let inst = random_inst(8, 1, 2, t, 4 + i, true, &mut rng);
+                let st = inst.statement();
+                let p = inst.prove(&mut rng).unwrap();
+                (inst, st, p)
+            })
+            .collect();
+        for pos in 0..3usize {
+            for dt in [1usize, t - 1, t + 1, 6] {
+                if dt == t {
+                    continue;
+                }
+                let b = members[pos].2.to_bytes();
+                let mut c = vec![dt as u8];
+                for k in 0..dt {
+                    if k < t {
+                        c.extend_from_slice(&b[1 + 32 * k..33 + 32 * k]);
+                    } else {
+                        c.extend_from_slice(&[0u8; 32]);
+                    }
+                }
+                c.extend_from_slice(&b[1 + 32 * t..]);
+                let Ok(bad) = Proof::from_bytes(&c) else { continue };
+                let stmts: Vec<Stmt> = members.iter().map(|m| m.1.clone()).collect();
+                let proofs: Vec<Proof> = members.iter().enumerate().map(|(i, m)| if i == pos { bad.clone() } else { m.2.clone() }).collect();
+                for action in ACTIONS {
+                    let mut ts: Vec<Transcript> = members.iter().map(|m| m.0.transcript()).collect();
+                    let r = std::panic::catch_unwind(std::panic::AssertUnwindSafe(|| Proof::verify_batch(&mut ts, &stmts, &proofs, action).is_ok()));
+                    ncalls += 1;
+                    let key = format!("{} seeded batch of 3 (degree {}), proof at position {} re-tagged to degree {}, action={}", GROUP, t, pos, dt, action_name(action));
+                    out.oracle("C16:verify-no-panic", r.is_ok(), &key, "panicked");
+                    if let Ok(ok) = r {
+                        out.oracle("C16:degree-mismatch-is-an-error", !ok, &key, "a proof of another extension degree was not refused");
+                    }
+                    classes.insert((t, pos, dt, 0, 96, action_name(action)));
+                }
             }
         }
     }
